@@ -122,9 +122,32 @@ def run_inputs(exe, reqs):
     return rs, died, err
 
 
+OBSERVERS = [{"method": "eval_up_to", "src": "struct Zq9 { x: Int }", "offset": 3},
+             {"method": "eval_up_to", "src": "enum Eq9 { Aq9 }", "offset": 2},
+             {"method": "eval_up_to", "src": "1 + 2", "offset": 2},
+             {"method": "eval_up_to", "src": "for oq9 in [1, 2] { oq9 }", "offset": 18},
+             {"method": "run", "input": ":type 1 + 2"}, {"method": "run", "input": ":locals"}, {"method": "run", "input": ":doc print"},
+             {"method": "run", "input": ":parse 1 +"}, {"method": "run", "input": ":namespace"}]
+
+
+def run_inputs_observed(exe, reqs, salt):
+    """Like run_inputs, but requests that only LOOK at the session (eval-up-to on text that is not part of the program,
+    read-only commands) are interleaved; their answers are dropped. `Nothing else changes between requests.`"""
+    import random
+    r = random.Random(salt)
+    full, keep = [], []
+    for q in reqs:
+        while r.random() < 0.3:
+            full.append(dict(r.choice(OBSERVERS)))
+        keep.append(len(full))
+        full.append({"method": "run", "input": q})
+    rs, died, err, rc = oracle.run_history(exe, full)
+    return [rs[i] for i in keep if i < len(rs)], died, err
+
+
 def compare(exe, inputs, vs):
     probe = "[%s]" % ", ".join("string_repr(%s)" % v for v in vs) if vs else "0"
-    inc, d1, e1 = run_inputs(exe, inputs + [probe])
+    inc, d1, e1 = run_inputs_observed(exe, inputs + [probe], __import__('zlib').crc32("\n".join(inputs).encode()) & 0xffff)
     bat, d2, e2 = run_inputs(exe, ["\n".join(inputs), probe])
     return inc, d1, e1, bat, d2, e2
 
